@@ -511,8 +511,21 @@ impl Simulation {
                 Ok(Some(t)) if t == target_time => return Ok(()),
                 // No actions are scheduled before or at the target time.
                 Ok(None) => {
-                    // Update the simulation time.
+                    // Update the simulation time while holding the lock of the
+                    // scheduler queue: if another thread has scheduled an
+                    // action up to the target time since the queue was last
+                    // inspected, that action must be processed first,
+                    // otherwise it would end up in the past of the simulation
+                    // time.
+                    let scheduler_queue = self.scheduler_queue.lock().unwrap();
+                    if let Some((key, _)) = scheduler_queue.peek() {
+                        if key.0 <= target_time {
+                            continue;
+                        }
+                    }
                     self.time.write(target_time);
+                    drop(scheduler_queue);
+
                     self.clock.synchronize(target_time);
                     return Ok(());
                 }
